@@ -85,6 +85,16 @@ Example C18_text_witnesses :
   /\ prop_C18_text (error_text demo_tree_tame) = true.
 Proof. exact text_witnesses. Qed.
 
+(* the oracle the check evaluates knows the diagnostics that exist: repetitions are told from two
+   different diagnostics that happen to print the same line (two void methods in one file) *)
+Example C18_text_tree_witnesses :
+  prop_C18_text_tree demo_tree_two_errors (error_text demo_tree_two_errors) = false
+  /\ prop_C18_text_tree demo_tree_parent_child (error_text demo_tree_parent_child) = false
+  /\ prop_C18_text_tree demo_tree_tame (error_text demo_tree_tame) = true
+  /\ prop_C18_text (error_text demo_tree_two_voids) = false
+  /\ prop_C18_text_tree demo_tree_two_voids (error_text demo_tree_two_voids) = true.
+Proof. exact text_tree_witnesses. Qed.
+
 (* range_inside is refuted for one rule: a method that returns nothing gets the zero range *)
 Theorem C18_void_range_refuted :
   exists r ly decl, In (20, 1, zero_rng) (ranged r ly) /\ inside zero_rng decl = false
@@ -124,6 +134,7 @@ Print Assumptions C18_nodup_text_refuted.
 Print Assumptions C18_selected_per_diagnostic.
 Print Assumptions C18_nodup_text_partial.
 Print Assumptions C18_text_witnesses.
+Print Assumptions C18_text_tree_witnesses.
 Print Assumptions C18_void_range_refuted.
 Print Assumptions C18_nonvacuous_ranges.
 Print Assumptions C18_nonvacuous_inside.
